@@ -3,6 +3,7 @@ import numpy as np
 
 from symx.harness import Obs
 from symx.inject import SymList
+from symx.scalar import Q
 
 from cr.cube.cube import Cube, CubeSet
 
@@ -56,7 +57,7 @@ def sub2d(w, k):
 def three_d(eng, table, rows, cols, k=0, mean=False):
     w = CellWorld(eng, [table, rows, cols])
     if mean:
-        w.free_measure("mean", "x")
+        w.free_measure("mean" if mean is True else mean, "x", lo=0 if mean == "stddev" else None)
     P = eng.pyreal("P", lo=0)
     cube3 = Cube(w.response(), population=P)
     parts = cube3.partitions
@@ -149,6 +150,40 @@ def numeric_rows(eng):
     return obs
 
 
+def _text_dim(values, ids=None):
+    ids = ids if ids is not None else list(range(len(values)))
+    return {"derived": True, "references": {"alias": "txt", "description": "text", "name": "txt"},
+            "type": {"class": "enum", "elements": [{"id": i, "value": v} for i, v in zip(ids, values)],
+                     "subtype": {"class": "text", "missing_reasons": {"No Data": -1}, "missing_rules": {}}}}
+
+
+def augmented_filter_cube(eng):
+    """multi-cube set whose later cube is a single-column filter cube lacking the rows with zero count: it is re-aligned on the
+    summary cube's rows (zero-filled) without losing its transforms or the population"""
+    vals = ["A", "B", "C", "D"]
+    s_counts = [eng.real("s%d" % k, lo=0) for k in range(4)]
+    f_counts = [eng.real("f%d" % k, lo=0) for k in range(2)]
+
+    def resp(values, counts, single):
+        r = {"dimensions": [_text_dim(values)], "counts": SymList(list(counts)), "element": "crunch:cube", "missing": 0, "n": 10,
+             "measures": {"count": {"data": SymList(list(counts)), "metadata": NUM_META, "n_missing": 0}}}
+        if single:
+            r["is_single_col_cube"] = True
+        return {"query": {}, "result": r}
+    P = eng.pyreal("P", lo=0)
+    tr = {"rows_dimension": {"order": {"type": "explicit", "element_ids": [3, 0]}, "elements": {"2": {"hide": True}}}}
+    cs = CubeSet([resp(vals, s_counts, False), resp(["B", "D"], f_counts, True)], transforms=[{}, tr], population=P, min_base=0)
+    part = cs.partition_sets[0][1]
+    zero = Q.lift(0) if eng.symbolic else 0.0
+    full = [zero, f_counts[0], zero, f_counts[1]]
+    ref = Cube(resp(vals, full, False), transforms=tr, population=P).partitions[0]
+    obs = []
+    for p in ("counts", "row_labels", "table_proportions", "population_counts", "population_counts_moe", "rows_margin", "shape", "unweighted_counts"):
+        obs += R.compare("augmented filter cube: %s" % p, R.read(part, p), R.read(ref, p))
+    obs.append(Obs("augmented filter cube: row_order", [int(i) for i in part.row_order()], [int(i) for i in ref.row_order()], kind="same"))
+    return obs
+
+
 def specs(tier):
     out = []
     M = "props.c06"
@@ -166,6 +201,10 @@ def specs(tier):
     add("cat x cat x mr p1", "three_d", dict(table=("cat", "t", 2, {"missing_at": (1,)}), rows=("cat", "a", 2, {"missing_at": (1,)}), cols=("mr", "b", 2, {}), k=1))
     add("cat x mr x cat p1 with means", "three_d", dict(table=("cat", "t", 2, {"missing_at": (1,)}), rows=("mr", "a", 2, {}), cols=cols, k=1, mean=True))
     add("mr x cat x cat p1 with means", "three_d", dict(table=("mr", "t", 2, {}), rows=("cat", "a", 2, {"missing_at": (1,)}), cols=cols, k=1, mean=True))
+    for meas in ("median", "stddev", "sum"):
+        add("cat x mr x cat p1 with %s" % meas, "three_d", dict(table=("cat", "t", 2, {"missing_at": (1,)}), rows=("mr", "a", 2, {}), cols=cols, k=1, mean=meas))
+    add("cat x cat x mr p0 with median", "three_d", dict(table=("cat", "t", 2, {"missing_at": (0,)}), rows=("cat", "a", 2, {"missing_at": (1,)}), cols=("mr", "b", 2, {}), k=0, mean="median"))
+    add("augmented single-column filter cube in a cube set", "augmented_filter_cube", dict())
     for k in (0, 1):
         add("ca as 0th set %d" % k, "ca_as_0th", dict(k=k))
     add("numeric-summary cube set", "numeric_rows", dict())
